@@ -324,6 +324,31 @@ def _rest_after_r2(ctx, core, cg, G_holder=None):
     from rules import c13 as c13_
     c13_.this_pairing(ctx, "C03.R6", core)
     c04_.free_variable_rule(ctx, "C03.R6", core, only=lambda k_: k_.startswith("binder["))
+    scope_chain_rule(ctx, "C03.R7", core)
+    # parameters and do-block locals shadow outer names in the source text emitted for a function, too
+    ctx.rule("C03.R8", "a function parameter or do-block local that shadows a captured outer name keeps shadowing it in the source emitted for the function (output / to_string / JSON): the inliner removes every binder's names - parameters of every kind by their name, not their printed form - from the values it substitutes", floor=2)
+    from rules import printers as P_
+    from rules.c04 import _Only
+    P_.R8_binders(_Only(ctx, lambda k_: k_.startswith("binder=")), "C03.R8", core)
+
+
+def scope_chain_rule(ctx, rid, core):
+    """'already defined' is decided over every enclosing scope, like the lookup itself"""
+    ctx.rule(rid, "a name is 'already bound' exactly where it is visible: Environment::contains_key and Environment::get both test the local bindings and then ask the parent through themselves, all the way up (a one-level test lets `x = 2` two scopes below an `x` shadow it silently)", floor=2)
+    for nm in ("get", "contains_key"):
+        d = "blots_core::environment::Environment::" + nm
+        f = core.hir.get(d)
+        if f is None or f.get("body") is None:
+            ctx.inst(rid, "Environment::%s#parent-step" % nm, None, "function not found", None)
+            continue
+        steps = [x for x in H.walk(f["body"]) if H.kind(x) == "MethodCall" and (x.get("def") or "").startswith("blots_core::environment::Environment::")
+                 and any(H.kind(y) == "Path" and (H.path_local(y) == "parent") or (H.kind(y) == "Field" and y.get("name") == "parent") for y in H.walk(x["recv"]))]
+        loops = [x for x in H.walk(f["body"]) if H.kind(x) in ("Loop", "While", "For")]
+        if not steps:
+            ctx.inst(rid, "Environment::%s#parent-step" % nm, None if loops else False, "no call on the parent scope found%s" % (" (an explicit loop: not modelled)" if loops else ": only the local scope is consulted"), H.loc(f["body"]))
+            continue
+        other = sorted({H.last(x["def"]) for x in steps if x["def"] != d})
+        ctx.inst(rid, "Environment::%s#parent-step" % nm, not other, "the parent is asked through %s%s" % (sorted({H.last(x["def"]) for x in steps}), "" if not other else ": %s does not continue up the chain the way %s does" % (other, nm)), H.loc(steps[0]))
 
 
 def fresh_child_scopes(ctx, rid, core, cg, doc=None):
